@@ -12,6 +12,7 @@ func init() {
 		Runs: []run{
 			{Test: "TestC13_KeepAlive", Quick: 2500, Thorough: 120000},
 			{Test: "TestC13_HTTP", Quick: 1500, Thorough: 60000},
+			{Test: "TestC13_Stdio", Quick: 400, Thorough: 20000, Shards: 4},
 		},
 	})
 }
